@@ -114,7 +114,7 @@ def num_eq(a, b):
     return abs(fa - fb) <= ATOL + RTOL * max(abs(fa), abs(fb))
 
 
-def diff(a, b, path, out, limit=12):
+def diff(a, b, path, out, limit=12, ignore=()):
     if len(out) >= limit:
         return
     if isinstance(a, (int, float)) and isinstance(b, (int, float)) and not isinstance(a, bool) and not isinstance(b, bool):
@@ -145,21 +145,24 @@ def diff(a, b, path, out, limit=12):
             out.append('%s: %s vs %s' % (path, _short(a), _short(b)))
             return
         for i, (x, y) in enumerate(zip(a, b)):
-            diff(x, y, '%s' % path if i < 2 and isinstance(x, (str, int)) else '%s.%d' % (path, i), out, limit)
+            diff(x, y, '%s' % path if i < 2 and isinstance(x, (str, int)) else '%s.%d' % (path, i), out, limit, ignore)
         return
     if isinstance(a, list):
         if len(a) != len(b):
             out.append('%s: length %d vs %d' % (path, len(a), len(b)))
             return
         for i, (x, y) in enumerate(zip(a, b)):
-            diff(x, y, '%s[%d]' % (path, i), out, limit)
+            diff(x, y, '%s[%d]' % (path, i), out, limit, ignore)
         return
     if isinstance(a, dict):
+        if ignore:
+            a = dict((k, v) for k, v in a.items() if k not in ignore)
+            b = dict((k, v) for k, v in b.items() if k not in ignore)
         if set(a) != set(b):
             out.append('%s: keys %s vs %s' % (path, sorted(set(a) - set(b)), sorted(set(b) - set(a))))
             return
         for k in a:
-            diff(a[k], b[k], '%s.%s' % (path, k), out, limit)
+            diff(a[k], b[k], '%s.%s' % (path, k), out, limit, ignore)
         return
     if a != b:
         out.append('%s: %r != %r' % (path, a, b))
@@ -178,7 +181,7 @@ def _short(v):
     return s if len(s) < 80 else s[:77] + '...'
 
 
-def trial(contract, build, values=None, seed=0):
+def trial(contract, build, values=None, seed=0, ignore=()):
     """Run one differential trial.  Returns None (agree), 'reject', or a dict describing the disagreement."""
     fa = ConcFactory(values, seed)
     fb = ConcFactory(values, seed)
@@ -213,7 +216,7 @@ def trial(contract, build, values=None, seed=0):
         rb = sb.take([out_b[1]] + [args_b[k] for k in sorted(args_b)])
         names = ['return'] + ['arg ' + k for k in sorted(args_a)]
         for nm, x, y in zip(names, ra[2], rb[2]):
-            diff(x, y, nm, diffs)
+            diff(x, y, nm, diffs, ignore=ignore)
     if not diffs:
         return None
     return {'inputs': _jsonable(fa.used), 'diffs': diffs, 'seed': seed,
@@ -230,26 +233,26 @@ def _jsonable(d):
     return out
 
 
-def search(contract, build, model_vals=None, n_random=200, seed=0):
+def search(contract, build, model_vals=None, n_random=200, seed=0, ignore=()):
     """Directed search for a failing input: the solver's model first, then random pre-states."""
     tried = 0
     rejected = 0
     if model_vals:
-        r = trial(contract, build, model_vals, seed)
+        r = trial(contract, build, model_vals, seed, ignore)
         tried += 1
         if isinstance(r, dict):
             r['from_model'] = True
             return r, tried
         # model values for some symbols, random for the rest
         for s in range(5):
-            r = trial(contract, build, model_vals, seed + 1000 + s)
+            r = trial(contract, build, model_vals, seed + 1000 + s, ignore)
             tried += 1
             if isinstance(r, dict):
                 r['from_model'] = True
                 return r, tried
     s = 0
     while tried < n_random + (6 if model_vals else 0) and s < 20 * n_random:
-        r = trial(contract, build, None, seed + s)
+        r = trial(contract, build, None, seed + s, ignore)
         s += 1
         if r == 'reject':
             rejected += 1
